@@ -1,3 +1,4 @@
+import MdsVerif.Gen.Queue
 /-!
 # Model of `queue.Queue` (queue/queue.go): a growing ring buffer
 
@@ -6,6 +7,12 @@ State passing mirror of the Go methods.  `vs` is the whole buffer
 number of live elements.  Go's `append` growth policy is the parameter `extra`
 (the number of spare zeroed cells `append` hands back beyond the new element);
 `slice.Rotate(vs, -head)` is modelled by its C17 specification `rotl`.
+
+Every guard, wrap test and index expression below is a definition of
+`MdsVerif.Gen.Queue`, which `extract/queue.go` regenerates from queue.go on
+every run (DESIGN.md §3.1): this file only fixes the control flow between them.
+Go's `int` arithmetic with a subtraction (`pos := q.head - 1; if pos < 0`) is
+over `Int`; `Props.C07.C07_current` pins every one of these facts.
 -/
 namespace MdsVerif.Model.Queue
 variable {α : Type} [Inhabited α]
@@ -29,62 +36,77 @@ def Q.at (q : Q α) (i : Nat) : α := q.vs.getD ((q.head + i) % q.cap) default
 /-- specification of `slice.Rotate(l, -k)` for `0 ≤ k ≤ len l` (C17) -/
 def rotl (l : List α) (k : Nat) : List α := l.drop k ++ l.take k
 
+/-- `slice.Rotate(l, k)` by its specification: for `-len l < k < 0` (the only way the pinned queue.go
+calls it) this is `rotl l (-k)`, which `C17.rotate_neg_eq_rotl` proves equal to the executable Rotate
+model; for `0 ≤ k ≤ len l` (reachable only if the argument in queue.go changes) a rotation to the
+right by `k` is a rotation to the left by `len l - k` -/
+def rotateBy (l : List α) (k : Int) : List α :=
+  rotl l (if k < 0 then (-k).toNat else l.length - k.toNat)
+
 /-- `w := append(vs, v); vs = w[:cap(w)]` -/
 def grown (vs : List α) (v : α) (extra : Nat) : List α := vs ++ v :: List.replicate extra default
 
 def Q.add (q : Q α) (v : α) (extra : Nat) : Q α :=
-  if q.n < q.cap then
-    let pos := q.head + q.n
-    let pos := if pos ≥ q.cap then pos - q.cap else pos
-    { q with vs := q.vs.set pos v, n := q.n + 1 }
+  if Gen.Queue.addHasRoom q.n q.cap then
+    -- `pos := q.head + q.n; if pos >= len(q.vs) { pos -= len(q.vs) }`
+    let pos : Int := Gen.Queue.addPos q.head q.n
+    let pos : Int := if Gen.Queue.addWraps pos q.cap then Gen.Queue.addWrapped pos q.cap else pos
+    { q with vs := q.vs.set pos.toNat v, n := q.n + 1 }
   else
-    let vs := if q.head > 0 then rotl q.vs q.head else q.vs
+    -- `if q.head > 0 { slice.Rotate(q.vs, -q.head); q.head = 0 }`
+    let vs := if Gen.Queue.addRotates q.head then rotateBy q.vs (Gen.Queue.addRotateBy q.head) else q.vs
     { vs := grown vs v extra, head := 0, n := q.n + 1 }
 
 def Q.push (q : Q α) (v : α) (extra : Nat) : Q α :=
-  if q.n < q.cap then
+  if Gen.Queue.pushHasRoom q.n q.cap then
     -- `pos := q.head - 1; if pos < 0 { pos = len(q.vs) - 1 }`
-    let pos := if q.head = 0 then q.cap - 1 else q.head - 1
-    { vs := q.vs.set pos v, head := pos, n := q.n + 1 }
+    let pos : Int := Gen.Queue.pushPos q.head
+    let pos : Int := if Gen.Queue.pushWraps pos then Gen.Queue.pushWrapped q.cap else pos
+    { vs := q.vs.set pos.toNat v, head := pos.toNat, n := q.n + 1 }
   else
-    let vs := if q.head > 0 then rotl q.vs q.head else q.vs
+    let vs := if Gen.Queue.pushRotates q.head then rotateBy q.vs (Gen.Queue.pushRotateBy q.head) else q.vs
     let w := grown vs v extra
-    { vs := w.set (w.length - 1) v, head := w.length - 1, n := q.n + 1 }
+    -- `q.head = len(q.vs) - 1; q.vs[q.head] = v`
+    let head := (Gen.Queue.pushGrowHead w.length).toNat
+    { vs := w.set head v, head := head, n := q.n + 1 }
 
 def Q.pop (q : Q α) : Q α × Option α :=
-  if q.n = 0 then (q, none) else
+  if Gen.Queue.popEmpty q.n then (q, none) else
   let out := q.vs.getD q.head default
-  if q.n - 1 = 0 then ({ q with head := 0, n := 0 }, some out)
-  else ({ q with head := (q.head + 1) % q.cap, n := q.n - 1 }, some out)
+  let n := q.n - 1
+  if Gen.Queue.popResets n then ({ q with head := Gen.Queue.popResetHead, n := n }, some out)
+  else ({ q with head := Gen.Queue.popHead q.head q.cap, n := n }, some out)
 
 def Q.popLast (q : Q α) : Q α × Option α :=
-  if q.n = 0 then (q, none) else
-  let pos := q.head + q.n - 1
-  let pos := if pos ≥ q.cap then pos - q.cap else pos
-  let out := q.vs.getD pos default
-  ({ q with n := q.n - 1, head := if q.n - 1 = 0 then 0 else q.head }, some out)
+  if Gen.Queue.popLastEmpty q.n then (q, none) else
+  let pos : Int := Gen.Queue.popLastPos q.head q.n
+  let pos : Int := if Gen.Queue.popLastWraps pos q.cap then Gen.Queue.popLastWrapped pos q.cap else pos
+  let out := q.vs.getD pos.toNat default
+  let n := q.n - 1
+  ({ q with n := n, head := if Gen.Queue.popLastResets n then Gen.Queue.popLastResetHead else q.head }, some out)
 
 def Q.clear (_ : Q α) : Q α := Q.empty
 
-def Q.front (q : Q α) : α := if q.n = 0 then default else q.vs.getD q.head default
+def Q.front (q : Q α) : α := if Gen.Queue.frontEmpty q.n then default else q.vs.getD q.head default
 
 /-- `Peek(n)` for any integer offset -/
 def Q.peek (q : Q α) (k : Int) : Option α :=
-  let k := if k < 0 then k + q.n else k
-  if k < 0 ∨ k ≥ q.n then none
-  else some (q.vs.getD ((q.head + k.toNat) % q.cap) default)
+  let k := if Gen.Queue.peekNeg k then Gen.Queue.peekNorm k q.n else k
+  if Gen.Queue.peekOut k q.n then none
+  else some (q.vs.getD (Gen.Queue.peekIdx q.head k.toNat q.cap) default)
 
-/-- `Slice()`; also the sequence `Each` visits: walk `n` cells from `head` with `cur = (cur+1) % cap` -/
-def Q.walk (q : Q α) : Nat → Nat → List α
+/-- the loop of `Slice()` / `Each`: walk `n` cells from `head` with `cur = step cur cap` -/
+def Q.walk (q : Q α) (step : Nat → Nat → Nat) : Nat → Nat → List α
   | 0, _ => []
-  | k + 1, cur => q.vs.getD cur default :: q.walk k ((cur + 1) % q.cap)
+  | k + 1, cur => q.vs.getD cur default :: q.walk step k (step cur q.cap)
 
-def Q.slice (q : Q α) : List α := q.walk q.n q.head
+def Q.slice (q : Q α) : List α :=
+  if Gen.Queue.sliceEmpty q.n then [] else q.walk Gen.Queue.sliceStep q.n q.head
 /-- `Each` stopped by the callback after `k` elements have been seen (`k = 0`: stops at the first) -/
-def Q.each (q : Q α) (k : Nat) : List α := q.walk (min q.n (k + 1)) q.head
+def Q.each (q : Q α) (k : Nat) : List α := q.walk Gen.Queue.eachStep (min q.n (k + 1)) q.head
 
 def Q.len (q : Q α) : Nat := q.n
-def Q.isEmpty (q : Q α) : Bool := q.n == 0
+def Q.isEmpty (q : Q α) : Bool := Gen.Queue.isEmptyTest q.n
 
 end MdsVerif.Model.Queue
 
